@@ -426,8 +426,8 @@ def run(ctx):
         del a["where"]
         records.append(a)
     # self-test: corrupted copies must be rejected
-    c1 = copy.deepcopy(next(r for r in records if r["kind"] == "P")); c1["id"] = 0; c1["gNdot"] += 1
-    c2 = copy.deepcopy(next(r for r in records if r["kind"] == "S")); c2["id"] = -1; c2["gNdot"][0] += 1
+    c1 = copy.deepcopy(next(r for r in records if r["kind"] == "P")); c1["id"] = 0; c1["gNdot"] += 977
+    c2 = copy.deepcopy(next(r for r in records if r["kind"] == "S")); c2["id"] = -1; c2["gNdot"][0] += 977
     bad, rt = batch_validate(ctx, "ContactKernel", records + [c1, c2], {"Mode": '"trace"'}, "ck_trace")
     if bad.pop(0, None) is None or bad.pop(-1, None) is None:
         raise tlc.MachineryError("self-test failed: a corrupted contact record was accepted by the trace specification")
